@@ -74,7 +74,38 @@ static void after(int t, const char *cls, int bos, const char *fmtname) {
                          case 2: FENCED(g_ret = _snwprintf_s_chk(g_d, dm, B, FMT, ##__VA_ARGS__)); break; default: FENCED(g_ret = v_vsnwprintf_s(g_d, dm, B, FMT, ##__VA_ARGS__)); break; } \
             after(t, CLS, bos, #FMT); } } } while (0)
 
+/* formats on which the C library itself fails after partial output (encoding error in a %s argument): a failure with dest empty is the only
+ * acceptable outcome */
+static void after_error(int t, const char *cls, int bos, const char *fmtname) {
+    char obs[300], c2[120]; size_t dm = g_dm; wchar_t *d = g_d; int hc = g_h.count;
+    n_calls++; g_shm->in_call = 0;
+    snprintf(c2, sizeof c2, "%s|%s", cls, bos ? "bos=exact" : "bos=unknown");
+    {   char b[200]; snprintf(b, sizeof b, "%s;%s;%d;%d", FN[t], c2, g_ret < 0 ? -1 : 1, hc); distinct_add(hash_str(b)); }
+    if (g_fence.faulted) { snprintf(obs, sizeof obs, "%s fault at dest%+ld elements (format %s)", g_fence.is_write ? "WRITE" : "READ", (long)((long)(g_fence.addr - (uintptr_t)d) / 4), fmtname); vio(g_fence.is_write ? "C01" : "C02", FN[t], g_fence.is_write ? "W-fault" : "R-fault", c2, obs); return; }
+    size_t l = wcsnlen(d, dm);
+    if (l == dm) { snprintf(obs, sizeof obs, "no terminator in dest[0..%zu) after ret=%d (format %s)", dm, g_ret, fmtname); vio("C03", FN[t], "unterminated-dest", c2, obs); return; }
+    if (g_ret >= 0) return;          /* a library that renders the argument differently from libc and succeeds is not this rule's business */
+    if (hc != 1) { snprintf(obs, sizeof obs, "returned %d with %d handler calls", g_ret, hc); vio("C05", FN[t], hc ? "R1-handler-invoked-more-than-once" : "R3-failure-returned-without-handler", c2, obs); }
+    if (d[0]) { snprintf(obs, sizeof obs, "ret=%d but dest[0]=%#x", g_ret, (unsigned)d[0]); vio("C04", FN[t], "dest[0]-not-zero", c2, obs); }
+    else for (size_t i = 1; i < dm; i++) if (d[i] && d[i] != (wchar_t)(0x7878 + i)) {
+        if (g_noslack) vio("C04", FN[t], "partial-result-left-no-slack-build", "text-does-not-fit", "failed call leaves part of the text behind dest[0]");
+        else { snprintf(obs, sizeof obs, "ret=%d (conversion error after partial output), dest[%zu]=%#x still holds formatted text (format %s)", g_ret, i, (unsigned)d[i], fmtname); vio("C04", FN[t], "partial-result-visible", c2, obs); }
+        break; }
+}
+#define ECASE(CLS, FMT, ...) do { \
+    g_reflen = swprintf(g_ref, 290, FMT, ##__VA_ARGS__); \
+    if (g_reflen < 0) for (int t = 0; t < 4; t++) for (int bos = 0; bos < 2; bos++) { size_t dms[] = {16, 40, 600}; \
+        for (unsigned di = 0; di < 3; di++) { size_t dm = dms[di]; \
+            g_d = place_end(0, dm * sizeof(wchar_t)); memset((uint8_t *)g_d - 32, CANARY, 32); for (size_t i = 0; i < dm; i++) g_d[i] = 0x7878 + (wchar_t)i; g_dm = dm; \
+            size_t B = bos ? dm * sizeof(wchar_t) : BOS_UNKNOWN; probes_reset(); g_ret = -9999; g_cur_fn = FN[t]; g_shm->in_call = 1; \
+            switch (t) { case 0: FENCED(g_ret = _swprintf_s_chk(g_d, dm, B, FMT, ##__VA_ARGS__)); break; case 1: FENCED(g_ret = v_vswprintf_s(g_d, dm, B, FMT, ##__VA_ARGS__)); break; \
+                         case 2: FENCED(g_ret = _snwprintf_s_chk(g_d, dm, B, FMT, ##__VA_ARGS__)); break; default: FENCED(g_ret = v_vsnwprintf_s(g_d, dm, B, FMT, ##__VA_ARGS__)); break; } \
+            after_error(t, CLS, bos, #FMT); } } } while (0)
+
 static void wide_output(void) {
+    ECASE("encoding-error", L"abc%s", "\xff\xfe");
+    ECASE("encoding-error", L"%d:%s|tail", 42, "ok\xc3");
+    ECASE("encoding-error", L"%s", "\x80");
     WCASE("literal", L"plain text");
     WCASE("literal", L"");
     WCASE("percent", L"100%%");
